@@ -290,7 +290,7 @@ func (w *World) archiveBatch(c Call) error {
 	data := w.Chunk(c.C)
 	type member struct {
 		src, dst string
-		info os.FileInfo
+		info     os.FileInfo
 	}
 	var members []member
 	for i, name := range c.Q {
